@@ -55,14 +55,21 @@ type c07Env struct {
 // slot) and records it. A call that has not returned after 20s although its
 // context is alive marks the scenario stuck (res -1): the caller turns that
 // into a state-based verdict.
-func (c *c07Env) report(ctx context.Context, client, src int, l *conc.Layer, blocking bool) (int, error) {
+func (c *c07Env) report(ctx context.Context, client, src int, l *conc.Layer, blocking bool, again ...bool) (int, error) {
 	type out struct {
 		res int
 		err error
 	}
 	ch := make(chan out, 1)
 	go func() {
-		res, err := c.reportRaw(ctx, client, src, l, blocking)
+		var res int
+		var err error
+		if len(again) > 0 && again[0] {
+			// the watcher re-sends the identical value object of its previous report
+			res, err = c.e.ReReport(ctx, client, src, l, blocking)
+		} else {
+			res, err = c.reportRaw(ctx, client, src, l, blocking)
+		}
 		ch <- out{res, err}
 	}()
 	select {
@@ -252,6 +259,19 @@ func runC07(w *fw.Worker) {
 				fmt.Fprintf(&sig, "%d", res)
 				if res == conc.ResNil {
 					e.Read(1)
+				}
+				if blocking && !(c.blank != nil && src == 0) && (res == conc.ResNil || res == conc.ResRejected) && r.Chance(35) {
+					// the same object again: it must be stacked and judged again (rejected again, or installed again)
+					go func() { res, _ := c.report(ctx, 1, src, l, true, true); rd <- res }()
+					select {
+					case res = <-rd:
+					case <-time.After(10 * time.Second):
+						stuckVerdict(w, i, fmt.Sprintf("re-report of the identical object %s with a live context", l), desc)
+						e.S.Cancel()
+						return
+					}
+					w.Count("identical_object_re_reports", 1)
+					fmt.Fprintf(&sig, "r%d", res)
 				}
 				continue
 			}
